@@ -123,6 +123,19 @@ class Maybe:
         return self.code == other.code and self.v == other.v
 
 
-SUPPORT_NS = {"Maybe": Maybe, "R": R, "P": P, "P2": P2, "PSub": PSub, "Q": Q, "A": A, "A2": A2, "NT": NT, "NT2": NT2, "Color": Color, "Perm": Perm, "Weird": Weird}
+class Strict:
+    """repr is not Python code (-> HasRepr) and __eq__ answers False (not NotImplemented) for other types"""
+
+    def __init__(self, v):
+        self.v = v
+
+    def __repr__(self):
+        return f"<Strict {self.v}>"
+
+    def __eq__(self, other):
+        return isinstance(other, Strict) and other.v == self.v
+
+
+SUPPORT_NS = {"Strict": Strict, "Maybe": Maybe, "R": R, "P": P, "P2": P2, "PSub": PSub, "Q": Q, "A": A, "A2": A2, "NT": NT, "NT2": NT2, "Color": Color, "Perm": Perm, "Weird": Weird}
 if Basket is not None:
     SUPPORT_NS.update({"Basket": Basket, "basket_mut": basket_mut})
